@@ -388,12 +388,8 @@ def _dead(chk, ctx) -> None:
                 ok &= T.mk_not(dead) in conds
         chk.ob('C02.dead', f'State.{g}', ok and n > 0, f.loc, 'a player who is out of the hand holds no hand (None, before any evaluation)')
     # hands are evaluated from the right cards
-    f = ctx.sfi('get_up_hand')
-    want = T.spec('self.hand_types[hand_type_index].from_game(self.get_up_cards(player_index), self.get_board_cards(board_index))')
-    got = [unversion(c.term) for p in ctx.paths(f) for c in p.calls() if c.term[0] == 'mcall' and c.term[2] == 'from_game']
-    chk.ob('C02.hand_source', 'State.get_up_hand', bool(got) and all(g == want for g in got), f.loc,
-           "a showdown hand is made from the player's shown cards and the cards of the asked board, with the asked hand type",
-           got=T.show(got[0]) if got else None, want=T.show(want))
+    from .cover import hand_observers
+    hand_observers(chk, ctx, 'C02.hand_source', names=('get_up_hand',))
     f = ctx.sfi('get_up_hands')
     want = T.spec('self.get_up_hand(i, board_index, hand_type_index)', {'i': ('elem', ('self', 'player_indices'))})
     got = [unversion(e.term) for p in ctx.paths(f) for e in p.events if e.kind == 'yield']
